@@ -251,7 +251,14 @@ struct Run {
   void res(int s) {
     check_rounding_mode();
     dimension_type n = dim(s);
-    { OS o; o << "res " << s << " " << n << " cons"; put_cs(o, full_constraints(*slot[s]), n); J.line(o.str()); }
+    try { OS o; o << "res " << s << " " << n << " cons"; put_cs(o, full_constraints(*slot[s]), n); J.line(o.str()); }
+    catch (...) {
+      // constraints() throws on a Not-a-Number bound
+      { OS o; o << "note nan slot " << s; J.line(o.str()); }
+      { OS o; o << "reset " << s << " " << n; J.line(o.str()); }
+      slot[s].reset(new S(n, UNIVERSE));
+      return;
+    }
     if (check_ok(s)) return;
     { S c(*slot[s]); OS o; o << "res " << s << " " << n << " mcons"; put_cs(o, c.minimized_constraints(), n); J.line(o.str()); }
     if (K == 0) {   // Polyhedron(Topology, const Box&) builds from the intervals directly: a third reading
@@ -468,7 +475,10 @@ struct Run {
   // an expression whose transfer relation the domain can express, or an arbitrary one
   Linear_Expression img_expr(dimension_type n, dimension_type v, Coefficient& d) {
     d = r.chance(1, 4) ? r.range(-3, -1) : r.range(1, 3);
-    if (pf.limits && pf.big_den != 0 && r.chance(1, 4)) { d = pf.big_den; if (r.chance(1, 3)) d = -d; }
+    // a denominator that T cannot represent: in limit histories, and (floating-point T) now and then elsewhere
+    if (pf.big_den != 0 && ((pf.limits && r.chance(1, 4)) || (!pf.limits && pf.is_float && r.chance(1, 10)))) {
+      d = pf.big_den; if (r.chance(1, 3)) d = -d;
+    }
     unsigned k = r.below(10);
     if (k < 2) { Linear_Expression e; e += 0 * Variable(n - 1); e += Coefficient(r.range(-5, 5)); return e; }      // constant
     if (k < 6) { dimension_type w = r.chance(1, 3) ? v : r.below(n); Linear_Expression e; e += 0 * Variable(n - 1);
